@@ -16,7 +16,8 @@ TECHNIQUE = ('property-based testing (Hypothesis): generated sparse programs x g
 RULE = ('Programs as in C02 (origins, zones, muted regions, predefined data blocks, fills) and a window drawn relative '
         'to the reference line extents; -e omitted in a third of the cases; fill 0..255. Non-trivial = a window edge '
         'strictly inside a multi-byte line, or a gap / muted line / predefined block inside the window, or a default '
-        'end with non-byte lines or muted lines after the last emitted byte. Distinct = SHA-1 of the case JSON.')
+        'end with non-byte lines or muted lines after the last emitted byte. In a quarter of the cases a longer stale '
+        'file already exists at the output path. Distinct = SHA-1 of the case JSON.')
 ASSUMPTIONS = [
     'end >= start; when -e is omitted the window start is not beyond the last emitted byte (otherwise unspecified)',
     'windows are bounded to 128 KiB by the harness',
@@ -83,7 +84,7 @@ def _cases(draw, tier):
         if end < start:
             start, end = end, start
     return {'isa': cfg, 'items': b.items, 'start': start, 'end': end, 'fill': draw(st.integers(0, 255)),
-            'feats': sorted(feats)}
+            'feats': sorted(feats), 'stale_output': draw(st.integers(0, 3)) == 0}
 
 
 def strategy(tier):
@@ -135,6 +136,9 @@ def execute(case, ctx):
     if case['end'] is not None:
         argv += ['-e', str(case['end'])]
     argv += ['-f', str(case['fill']), 'main.asm']
+    if case.get('stale_output'):
+        # an older, longer image already sits at the output path: nothing of it may survive
+        files['out.bin'] = b'\x5a' * (len(want) + 41)
     res = runner.run_forked(argv, files)
     cl = classify_window(lay, case['start'], case['end'])
     detail = {'source': files['main.asm'], 'general': cfg['general'], 'predefined': cfg.get('predefined'), 'argv': argv,
@@ -166,6 +170,6 @@ def execute(case, ctx):
             findings.append(Finding(sig, detail))
     nt = bool(cl & {'start-inside-line', 'end-inside-line', 'gap-in-window', 'muted-line-in-window',
                     'predefined-block-in-window', 'default-end-with-trailing-non-emitting-lines'})
-    classes = ['outcome:' + res.klass] + ['win:' + c for c in sorted(cl)]
+    classes = ['outcome:' + res.klass] + ['win:' + c for c in sorted(cl)] + (['stale-output-file-present'] if case.get('stale_output') else [])
     sample = {'source': files['main.asm'], 'argv': argv, 'window_classes': sorted(cl), 'expected_len': len(want)}
     return Outcome(findings, nt, classes, 1, sample=sample)
